@@ -801,4 +801,173 @@ theorem c10_restart_fresh_witness :
   intro h
   exact absurd (h (by decide)) (by decide)
 
+/-! ## The block poller's first query -/
+
+/-- **The poller starts at the height the chain is read at - whatever fails.** Every first-block query of
+`BlockPollConnector.run` (the first attempt and every re-run by the supervisor after a failed one) asks for the configured tag
+(`finalized` on a chain read at finalized height, `latest` otherwise), and the block the poller starts from is one the node
+served under that tag: a failing query never makes the poller (or `getBlockNumber`, which goes through the same connector)
+read another height. -/
+theorem c10_poller_start_height (uf : Bool) (attempts : List TagAns) :
+    (∀ t ∈ (pollerStart uf attempts).1, t = blockTag none uf false) ∧
+    (∀ n, (pollerStart uf attempts).2 = some n → ∃ a ∈ attempts, a (blockTag none uf false) = .ok n) := by
+  induction attempts with
+  | nil => simp [pollerStart]
+  | cons a rest ih =>
+    cases h : a (blockTag none uf false) with
+    | ok n =>
+      refine ⟨?_, ?_⟩
+      · intro t ht
+        simp [pollerStart, getBlock, h] at ht
+        exact ht
+      · intro n' hn'
+        simp [pollerStart, getBlock, h] at hn'
+        exact ⟨a, by simp, by rw [h, hn']⟩
+    | noNum =>
+      refine ⟨?_, ?_⟩
+      · intro t ht
+        simp [pollerStart, getBlock, h] at ht
+        rcases ht with ht | ht
+        · exact ht
+        · exact ih.1 t ht
+      · intro n' hn'
+        simp [pollerStart, getBlock, h] at hn'
+        obtain ⟨a', ha', hok⟩ := ih.2 n' hn'
+        exact ⟨a', by simp [ha'], hok⟩
+    | err =>
+      refine ⟨?_, ?_⟩
+      · intro t ht
+        simp [pollerStart, getBlock, h] at ht
+        rcases ht with ht | ht
+        · exact ht
+        · exact ih.1 t ht
+      · intro n' hn'
+        simp [pollerStart, getBlock, h] at hn'
+        obtain ⟨a', ha', hok⟩ := ih.2 n' hn'
+        exact ⟨a', by simp [ha'], hok⟩
+
+/-- first attempt: the finalized query fails (the latest head is 105); second attempt: finalized head 101, latest 106 -/
+private def startAttempts : List TagAns :=
+  [fun t => if t = "finalized" then .err else .ok 105, fun t => if t = "finalized" then .ok 101 else .ok 106]
+
+example : pollerStart cfgEth.useFinalized startAttempts = (["finalized", "finalized"], some 101) := by decide
+
+private def ev105 : Event := { ev1 with rawBn := 105, cl := 1 }
+private def p105 : Pend := mkPend cfgEth ev105 1700000105
+
+/-- A poller that falls back to the latest block when its first finalized query fails (`pollerStartFallback`, not the code)
+violates `c10_poller_start_height`: on the chain read at finalized height the first finalized query fails once; the code asks
+again and starts at the finalized head 101, the variant starts at the latest head 105 with the finalized flag cleared for good -
+and the watcher, which waits for zero confirmations on that chain, hands over the message logged in block 105 at head 105 while
+the finalized head is 101 (at which the code keeps it pending). This is the input the check reports for such a change (start with
+a failing first block query; clauses `forwarded-not-final` / `reobs-not-final`). -/
+theorem c10_poller_start_fallback_witness :
+    pollerStart cfgEth.useFinalized startAttempts = (["finalized", "finalized"], some 101) ∧
+    pollerStartFallback cfgEth.useFinalized startAttempts = (["finalized", "latest"], some 105, false) ∧
+    (processHead cfgEth false 105 (fun _ => goodRc p105) [p105]).forwarded = [p105] ∧
+    (processHead cfgEth false 101 (fun _ => goodRc p105) [p105]).forwarded = [] ∧
+    (processHead cfgEth false 101 (fun _ => goodRc p105) [p105]).pending = [p105] := by
+  refine ⟨by decide, by decide, by decide, by decide, by decide⟩
+
+/-! ## Re-observation while the node changes branch -/
+
+/-- **The head that passes the depth test is never read after the receipt.** The node answers the first `k` RPC requests of a
+re-observation in view `a` and the others in view `b` (any `k`: a reorg between any two consecutive requests, before the first
+or after the last). Every message handed over comes from the receipt of the view the receipt request was answered in - core
+contract, message-published topic, status 1 - and its block number plus confirmations is at most a head `n ≠ 0` that is the head
+of the earlier view `a` or the head of that same view: never a head served only after the receipt had been read. -/
+theorem c10_reobserve_across_checks (cfg : Cfg) (topic : Bytes) (k : Nat) (a b : NodeView) (m : Msg)
+    (hm : m ∈ reobsForwardedAcross cfg topic k a b) :
+    ∃ r t n bn l ev, (viewAt k a b 2).rc = some r ∧ (viewAt k a b 2).rcErr = false ∧ r.status = 1 ∧
+      (viewAt k a b 1).head = some n ∧ (some n = a.head ∨ some n = (viewAt k a b 2).head) ∧
+      r.bn = some bn ∧ some l ∈ r.logs ∧ l.addr = cfg.contract ∧ l.topics.head? = some topic ∧ l.parse = some ev ∧
+      m = mkMsg cfg.chainId ev t ∧ n % U64 ≠ 0 ∧
+      add64 (bn % U64) (if cfg.wait then m.cl else 0) ≤ n % U64 := by
+  have hm' : m ∈ reobsForwarded cfg (viewAt k a b 1).head
+      (messageEvents cfg.contract topic cfg.chainId (viewAt k a b 2).rc (viewAt k a b 2).rcErr
+        ((viewAt k a b 2).rc.bind fun r => (viewAt k a b 3).bt r.bh)) := hm
+  obtain ⟨r, t, n, bn, l, ev, hrc, herr, hst, _, hn, hbn, hl, ha, htp, hp, hmk, hz, hle⟩ :=
+    c10_reobserve_checks cfg topic _ _ _ _ m hm'
+  refine ⟨r, t, n, bn, l, ev, hrc, herr, hst, hn, ?_, hbn, hl, ha, htp, hp, hmk, hz, hle⟩
+  unfold viewAt at hn ⊢
+  by_cases h1 : 1 ≤ k
+  · left; simp [h1] at hn; exact hn.symm
+  · right
+    have h2 : ¬ 2 ≤ k := by omega
+    simp [h1] at hn
+    simp [h2]
+    exact hn.symm
+
+private def viewDeep : NodeView := { head := some 110, rc := some receipt1, rcErr := false, bt := fun _ => some 1700000000 }
+private def viewRemined : NodeView :=
+  { head := some 104, rc := some { receipt1 with bh := bh2, bn := some 102 }, rcErr := false, bt := fun _ => some 1700000012 }
+
+-- the change of branch falls between the head request and the receipt request: head 110 (old view), receipt of the new view
+example : reobsForwardedAcross cfgBsc topic1 1 viewDeep viewRemined = [mkMsg 4 ev1 1700000012] ∧
+          reobsForwardedAcross cfgBsc topic1 0 viewDeep viewRemined = [mkMsg 4 ev1 1700000012] ∧
+          reobsForwardedAcross cfgBsc topic1 3 viewDeep viewRemined = [mkMsg 4 ev1 1700000000] := by decide
+
+/-- **A transaction orphaned while it is being re-observed is handed over only if it was deep enough before.** If after the
+change of branch the receipt lookup fails (the transaction is gone), then - wherever the change falls among the request's RPC
+requests - a message is handed over only from the receipt of the earlier view and only if that view's own head had reached the
+message's depth: a higher head on the new branch cannot make an orphaned message pass. -/
+theorem c10_reobserve_orphaned_during_request (cfg : Cfg) (topic : Bytes) (k : Nat) (a b : NodeView) (m : Msg)
+    (hb : b.rcErr = true) (hm : m ∈ reobsForwardedAcross cfg topic k a b) :
+    ∃ r n bn, a.rc = some r ∧ a.rcErr = false ∧ r.status = 1 ∧ a.head = some n ∧ r.bn = some bn ∧
+      add64 (bn % U64) (if cfg.wait then m.cl else 0) ≤ n % U64 := by
+  obtain ⟨r, _, n, bn, _, _, hrc, herr, hst, hn, _, hbn, _, _, _, _, _, _, hle⟩ :=
+    c10_reobserve_across_checks cfg topic k a b m hm
+  unfold viewAt at hrc herr hn
+  by_cases h2 : 2 ≤ k
+  · have h1 : 1 ≤ k := by omega
+    simp [h2] at hrc herr
+    simp [h1] at hn
+    exact ⟨r, n, bn, hrc, herr, hst, hn, hbn, hle⟩
+  · simp [h2] at herr
+    rw [hb] at herr
+    cases herr
+
+private def viewOld : NodeView := { head := some 101, rc := some receipt1, rcErr := false, bt := fun _ => some 1700000000 }
+private def viewNew : NodeView := { head := some 104, rc := none, rcErr := true, bt := fun _ => some 1700000000 }
+
+example : reobsForwardedAcross cfgBsc topic1 3 { viewOld with head := some 103 } viewNew = [mkMsg 4 ev1 1700000000] := by decide
+
+/-- Reading the head AFTER `MessageEventsForTransaction` (`reobsForwardedAcrossHeadLast`, not the code) violates
+`c10_reobserve_orphaned_during_request`: T (block 101, cl 2) is in its block at head 101; the reorg - T orphaned, the other
+branch at 104 - lands after the receipt request (k = 1) or after the block-time request (k = 2): the variant pairs the old
+receipt with the new head (101 + 2 ≤ 104) and hands the orphaned message over, although there never was a moment at which a head
+≥ 103 had been seen while the receipt pointed to block 101. The code hands over nothing, wherever the reorg falls. This is the
+input the check reports for such a change (op `rreobs`, clause `reobs-receipt-moved`). -/
+theorem c10_reobserve_head_last_witness :
+    reobsForwardedAcrossHeadLast cfgBsc topic1 1 viewOld viewNew = [mkMsg 4 ev1 1700000000] ∧
+    reobsForwardedAcrossHeadLast cfgBsc topic1 2 viewOld viewNew = [mkMsg 4 ev1 1700000000] ∧
+    (∀ k, reobsForwardedAcross cfgBsc topic1 k viewOld viewNew = []) := by
+  refine ⟨by decide, by decide, ?_⟩
+  intro k
+  cases hl : reobsForwardedAcross cfgBsc topic1 k viewOld viewNew with
+  | nil => rfl
+  | cons m rest =>
+    have hm : m ∈ reobsForwardedAcross cfgBsc topic1 k viewOld viewNew := by rw [hl]; simp
+    obtain ⟨r, n, bn, hrc, _, _, hn, hbn, hle⟩ := c10_reobserve_orphaned_during_request cfgBsc topic1 k viewOld viewNew m rfl hm
+    obtain ⟨_, _, _, _, _, ev, hrc2, _, _, _, _, _, hl2, ha2, _, hp2, hmk, _, _⟩ := c10_reobserve_across_checks cfgBsc topic1 k viewOld viewNew m hm
+    exfalso
+    simp only [viewOld, Option.some.injEq] at hrc hn
+    subst hrc; subst hn
+    simp only [receipt1, Option.some.injEq] at hbn
+    subst hbn
+    -- the message's consistency level is that of the receipt's only core-contract log (2): 101 + 2 ≤ 101 is false
+    have hcl : m.cl = 2 := by
+      unfold viewAt at hrc2
+      split at hrc2
+      · simp only [viewOld, Option.some.injEq] at hrc2
+        subst hrc2
+        simp only [receipt1, List.mem_cons, Option.some.injEq, List.mem_nil_iff, or_false, reduceCtorEq, false_or] at hl2
+        rcases hl2 with h | h
+        · subst h; simp [rlogForeign, cfgBsc] at ha2
+        · subst h; simp only [rlog1, Option.some.injEq] at hp2; subst hp2; rw [hmk]; rfl
+      · simp [viewNew] at hrc2
+    rw [hcl] at hle
+    revert hle
+    decide
+
 end Whv.C10
